@@ -228,6 +228,8 @@ def check_pipeline(ctx, P, fk, rule="E5.pipeline", _depth=0):
     steps = []
     ok = True
     bad = None
+    looped = False
+    via_image = False
     while True:
         while t.op in ("ref", "deref"):
             t = t.a[0]
@@ -255,10 +257,25 @@ def check_pipeline(ctx, P, fk, rule="E5.pipeline", _depth=0):
             steps.append(g.key)
             t = t.a[1][0]
             continue
+        if t.op == "loop" and not looped:
+            # a vector filled by a loop in this very function: decided on the unstripped terms of the evaluation
+            looped = True
+            raw = [s_ for _, s_ in sorted(ev.sites.items()) if s_.callee[0] in PIPE_SINK or s_.callee[0].endswith("multi_miller_loop")]
+            if len(raw) == 1:
+                x_, st_ = F.image_source(P, f, ev, raw[0].args[0])
+                if x_ is not None:
+                    steps.extend(st_)
+                    t = x_
+                    via_image = True
+                    continue
+                bad = st_
+            ok = False
+            bad = bad or "unrecognised step `%s`" % show(t, 2)
+            break
         ok = False
         bad = "unrecognised step `%s`" % show(t, 2)
         break
-    if f.cfg.back_edges():
+    if f.cfg.back_edges() and not via_image:
         res = F.loops_push_every_iteration(f)
         if not all(r[1] for r in res):
             ok = False
